@@ -207,11 +207,10 @@ func (c *caseState) filterOp(t []string) string {
 }
 
 func optVal(v []byte) string {
-	if v == nil {
-		return "~"
-	}
 	if len(v) == 0 {
-		return "x"
+		// nil, or a tag with an empty value: groupBySort treats both as nil, and which of the
+		// two a merged group reports depends on the (unstable) sort — rendered alike
+		return "~"
 	}
 	return "x" + h.Hex(v)
 }
@@ -459,6 +458,14 @@ func genCase(r *h.Rand, big bool) []string {
 			}
 			return a, b
 		}
+	}
+	pickRange0 := pickRange
+	pickRange = func() (int64, int64) {
+		a, b := pickRange0()
+		if b == math.MinInt64 { // `end - 1` would wrap; not a meaningful request
+			b++
+		}
+		return a, b
 	}
 	nq := 2 + r.Intn(3)
 	for i := 0; i < nq; i++ {
